@@ -566,6 +566,38 @@ def _exec_crosstalk(plan, ctx):
             viol("garbage_in_batch", {"entries_changed": bad, "batch": B}, f"{site0}/garbage_in_batch")
         elif bad:
             bump("near_tie_suppressed", bad)
+    # channel groups of the normalisation layer: with groups > 1 every group is normalised on its own, so replacing
+    # the channels of the other groups must leave a group's output unchanged ("no cross-talk between ... channels")
+    if not violations:
+        rs = np.random.RandomState((plan["garbage_seed"] + 1) % (2**31 - 1))
+        groups = int(rs.choice([2, 3]))
+        per = int(rs.choice([1, 2]))
+        C = groups * per
+        types = [(0, 0), (1, 0)] + ([(1, 1)] if D == 2 else [])
+        sig = geom.Signature(tuple((t, C) for t in types))
+        layer = ml.GroupNorm(sig, D, groups)
+        sp = tuple(cfg["spatial"])
+        mk = lambda scale: geom.MultiImage({t: jnp.asarray((scale * rs.normal(size=(C,) + sp + (D,) * t[0])).astype(np.float32)) for t in types}, D, zoo.torus_flags(cfg))
+        xa = mk(1.0)
+        try:
+            base = layer(xa)
+            bad = 0
+            for gj in range(groups):
+                evals += 1
+                noise = mk(30.0)
+                keep = slice(gj * per, (gj + 1) * per)
+                xg = geom.MultiImage({t: noise[t].at[keep].set(xa[t][keep]) for t in types}, D, xa.is_torus)
+                og = layer(xg)
+                for t in types:
+                    a, b = np.asarray(og[t][keep]), np.asarray(base[t][keep])
+                    if np.all(np.isfinite(a)) and float(np.max(np.abs(a - b))) > 1e-3 * max(1.0, float(np.max(np.abs(b)))):
+                        bad += 1
+                        break
+            bump("group_norm_groups_checked", groups)
+            if bad == groups:
+                viol("channel_groups_cross_talk", {"groups": groups, "channels": C, "groups_changed": bad}, f"GroupNorm/groups={groups}/channel_groups")
+        except NotImplementedError:
+            pass
     return _result(world, evals, counters, kinds, violations)
 
 
